@@ -29,6 +29,22 @@ _installed = False
 wrapped = {}
 
 
+def _resolve(cls, op):
+    """the function that implements `op` for `cls`, wherever in the library's own class hierarchy it is defined (a
+    refactoring may move it into a shared base class); simpy's own Store.put / Store.get are not ours to wrap"""
+    import inspect
+    for k in cls.__mro__:
+        f = k.__dict__.get(op)
+        if f is None:
+            continue
+        if getattr(f, "_fsmon", False):
+            return None                      # inherited from a class that is wrapped already
+        if inspect.isfunction(f) and (getattr(f, "__module__", "") or "").startswith("factorysimpy"):
+            return f
+        return None
+    return None
+
+
 def _wrap_reserve(cls, name, orig, side):
     @functools.wraps(orig)
     def w(self, *a, **k):
@@ -135,8 +151,8 @@ def install():
             wrapped[(mod, cname)] = repr(e)
             continue
         for op in ("can_put", "can_get"):
-            orig = cls.__dict__.get(op)
-            if orig is None or getattr(orig, "_fsmon", False):
+            orig = _resolve(cls, op)
+            if orig is None:
                 continue
             setattr(cls, op, _wrap_can(cls, op, orig))
     for mod, cname in STORE_CLASSES:
@@ -147,8 +163,8 @@ def install():
             wrapped[(mod, cname)] = repr(e)
             continue
         for op in OPS:
-            orig = cls.__dict__.get(op)
-            if orig is None or getattr(orig, "_fsmon", False):
+            orig = _resolve(cls, op)
+            if orig is None:
                 continue
             if op == "reserve_put":
                 setattr(cls, op, _wrap_reserve(cls, op, orig, "put"))
